@@ -53,6 +53,12 @@ def panic_clause(ctx, F, entries, rule='R-PANIC', stop=None, only_bodies=None, w
                 continue
             ent = table.get(s.key)
             if ent is None:
+                # entries may also describe their site by a pattern (`key_re`): the same site after a refactoring that
+                # renames temporaries or re-binds operands.  At most one entry may match, and it must be in the same function
+                cands = [e_ for k_, e_ in table.items() if e_.get('key_re') and re.fullmatch(e_['key_re'], s.key)]
+                if len(cands) == 1:
+                    ent = cands[0]
+            if ent is None:
                 rep.violation(rule, s.key,
                               'unreviewed may-panic site on a path that must not panic (%s); kind=%s operands=%s; dominating conditions=%s'
                               % (what, s.kind, s.desc, panic.dominating_conditions(fn, s.bid, prov)[:6]), s.where())
